@@ -120,7 +120,7 @@ def explore_config(shard):
         if i not in fresh_load:
             s = CONFIGS[base_cfg(cfg)]()
             k, _v = apply(s, base_cfg(cfg), ("load", i))
-            fresh_load[i] = (k, digest(insp.full_snapshot(s)))
+            fresh_load[i] = (k, digest(insp.observables(s)))
         return fresh_load[i]
 
     def viol(field, hist, msg):
@@ -136,7 +136,7 @@ def explore_config(shard):
                 was_done = base.is_done()
             except Exception:  # noqa (already reported on the transition that led here)
                 continue
-            before = digest(insp.full_snapshot(base)) if was_done else None
+            before = digest(insp.observables(base)) if was_done else None
             ops = []
             if not started and nloads < max_loads:
                 ops += [("load", i) for i in range(len(P))]
@@ -158,6 +158,7 @@ def explore_config(shard):
                     viol("unexpected-exception", h2, f"{opname(cfg, op)} raised {type(val).__name__}: {str(val)[:100]}")
                     continue
                 try:
+                    obs = digest(insp.observables(sim))
                     snap = insp.full_snapshot(sim)
                     sim.is_done()
                 except Exception as e:  # noqa
@@ -173,7 +174,7 @@ def explore_config(shard):
                         if nloads:
                             p.nontrivial += 1
                             p.counters["reload"] += 1
-                        if dg != fdg:
+                        if obs != fdg:
                             viol("reload-differs-from-fresh", h2, "state after this load differs from the same load on a fresh simulation")
                         if P[op[1]][0] in ("empty", "comment-only") and not sim.is_done():
                             viol("empty-not-done", h2, "a program without instructions is not done immediately")
@@ -190,8 +191,8 @@ def explore_config(shard):
                         if was_done:
                             p.counters["call-after-done"] += 1
                             p.nontrivial += 1
-                            if dg != before:
-                                viol("done-not-stable", h2, f"{op[0]}() on a finished simulation changed the state or an inspection result")
+                            if obs != before:
+                                viol("done-not-stable", h2, f"{op[0]}() on a finished simulation changed an observable result")
                             if not sim.is_done():
                                 viol("done-not-stable", h2, f"simulation no longer done after {op[0]}()")
                         if op[0] == "step":
@@ -210,7 +211,7 @@ def explore_config(shard):
                                 rk = "error"
                             if not sim.is_done():
                                 viol("run-not-done", h2, "run() returned but the simulation is not done")
-                            elif rk == "ok" and digest(insp.full_snapshot(ref)) != dg:
+                            elif rk == "ok" and digest(insp.observables(ref)) != obs:
                                 viol("run-differs-from-stepping", h2, f"run() ends in a different state than {n} step() calls")
                             p.counters["run"] += 1
                 if dg not in seen:
@@ -245,7 +246,8 @@ def run(ctx):
                 "shadow, jumps that leave the instruction memory's address range (negative, >= 2^14, wrapped), data-only program, run-time fault, infinite loop (horizon 40, "
                 "run excluded), parse failure at line 1, parse failure after the data segment was written; every configuration is explored twice: plainly, and with "
                 "every inspection function called after every operation (the GUI's behaviour). "
-                "States deduplicated on the complete canonical snapshot + every inspection result; the search runs to closure. Invariants per transition: "
+                "States deduplicated on the complete canonical snapshot + every inspection result; all comparisons use observable results only (every inspection function "
+                "and has_started), so internal caches cannot raise an alarm; the search runs to closure. Invariants per transition: "
                 "done => further step/run change nothing; step() returns not is_done(); run() == step() until done; empty program done immediately; a load "
                 "after earlier successful/failed loads equals the same load on a fresh simulation. Non-trivial = reload after an earlier load, call after done.")
     ctx.assumptions += ["behaviour after a run-time fault is not explored further (not part of the claim)", "wall-clock fields of the metrics are masked"]
